@@ -73,6 +73,14 @@ retry:
 	}
 	text := keep.String()
 	headline, frame, inSUT := classifyCrash(text)
+	// A heap inconsistency detected BY the garbage collector ("found pointer to free object", "marked
+	// free object", "found bad pointer in Go heap") is raised on whichever goroutine happens to be
+	// assisting the collector at that moment, so its stack says nothing about who is responsible.
+	gcDetected := strings.Contains(headline, "found pointer to free object") || strings.Contains(headline, "found bad pointer") ||
+		strings.Contains(text, "marked free object in span")
+	if gcDetected {
+		inSUT, frame = false, ""
+	}
 	if !inSUT && frame == "" && attempt < 3 && (strings.HasPrefix(headline, "SIGSEGV") || strings.HasPrefix(headline, "fatal error: ") || strings.HasPrefix(headline, "unexpected fault")) {
 		// The crashing goroutine has no frame outside the Go runtime (seen twice in ~10^3 runs on the
 		// overloaded machine: SIGSEGV in runtime.(*mheap).freeManual called from the background
